@@ -2,6 +2,8 @@ package main
 
 import (
 	"fmt"
+	"go/types"
+	"sort"
 	"strings"
 
 	"golang.org/x/tools/go/callgraph"
@@ -52,20 +54,48 @@ func (ro *Roles) derivedLookups(v ssa.Value, seen map[ssa.Value]bool, out *[]*ss
 			for _, a := range x.Call.Args {
 				ro.derivedLookups(a, seen, out)
 			}
+		} else if g := x.Call.StaticCallee(); g != nil && g.Blocks != nil && ro.w.InModule(g) {
+			// a list helper: what it returns may be computed from the list it is given
+			for _, a := range x.Call.Args {
+				if _, isSlice := a.Type().Underlying().(*types.Slice); isSlice {
+					ro.derivedLookups(a, seen, out)
+				}
+			}
+		}
+	case *ssa.Extract:
+		if c, ok := ro.w.Resolve(x.Tuple).(*ssa.Call); ok {
+			if _, isB := c.Call.Value.(*ssa.Builtin); !isB {
+				ro.derivedLookups(c, seen, out)
+			}
 		}
 	}
 }
 
 // formOf classifies the new value of the wait list of key relative to the old one.
 func (ro *Roles) formOf(v ssa.Value, keyAP string, depth int) string {
+	return ro.formOfRel(v, func(x ssa.Value) bool {
+		lk := ro.wlLookup(x)
+		return lk != nil && ro.w.AP(lk.Index) == keyAP
+	}, depth)
+}
+
+// formOfRel classifies v relative to "the old list", which sameKey recognises.
+func (ro *Roles) formOfRel(v ssa.Value, sameKey func(ssa.Value) bool, depth int) string {
 	w := ro.w
 	v = w.Resolve(v)
 	if depth > 6 {
 		return "unknown(deep)"
 	}
-	sameKey := func(x ssa.Value) bool {
-		lk := ro.wlLookup(x)
-		return lk != nil && w.AP(lk.Index) == keyAP
+	if sameKey(v) {
+		return "identity"
+	}
+	// one result of a helper that returns several (the list and a found flag)
+	if ex, ok := v.(*ssa.Extract); ok {
+		if c, ok := w.Resolve(ex.Tuple).(*ssa.Call); ok {
+			if _, isB := c.Call.Value.(*ssa.Builtin); !isB {
+				v = c
+			}
+		}
 	}
 	switch x := v.(type) {
 	case *ssa.Lookup, *ssa.Extract:
@@ -80,7 +110,7 @@ func (ro *Roles) formOf(v ssa.Value, keyAP string, depth int) string {
 			return "truncate(pop-back)"
 		}
 		if ph, ok := w.Resolve(x.X).(*ssa.Phi); ok && x.Low != nil && isConstInt(x.Low, 1) && x.High == nil {
-			return "pop-front(of " + ro.formOf(ph, keyAP, depth+1) + ")"
+			return "pop-front(of " + ro.formOfRel(ph, sameKey, depth+1) + ")"
 		}
 	case *ssa.Phi:
 		forms := map[string]bool{}
@@ -92,7 +122,7 @@ func (ro *Roles) formOf(v ssa.Value, keyAP string, depth int) string {
 				forms["pop-front"] = true
 				continue
 			}
-			forms[ro.formOf(e, keyAP, depth+1)] = true
+			forms[ro.formOfRel(e, sameKey, depth+1)] = true
 		}
 		var fs []string
 		for f := range forms {
@@ -111,6 +141,21 @@ func (ro *Roles) formOf(v ssa.Value, keyAP string, depth int) string {
 	case *ssa.Call:
 		b, ok := x.Call.Value.(*ssa.Builtin)
 		if !ok || b.Name() != "append" {
+			// a module helper over the list (a method of a named list type, say): the form of what it returns
+			if g := x.Call.StaticCallee(); g != nil && g.Blocks != nil && w.InModule(g) {
+				k := -1
+				for i, a := range x.Call.Args {
+					if sameKey(a) {
+						if k >= 0 {
+							return "unknown(call " + calleeName(&x.Call) + " with the list twice)"
+						}
+						k = i
+					}
+				}
+				if k >= 0 && k < len(g.Params) {
+					return ro.helperReturnForm(g, k, depth+1)
+				}
+			}
 			return "unknown(call " + calleeName(&x.Call) + ")"
 		}
 		first, rest := w.Resolve(x.Call.Args[0]), x.Call.Args[1]
@@ -146,6 +191,97 @@ func (ro *Roles) formOf(v ssa.Value, keyAP string, depth int) string {
 var allowedForms = map[string]string{
 	"push-back": "enqueue at the back", "pop-front": "dequeue from the front", "pop-front*": "dequeue from the front (loop-carried)",
 	"delete-at-i": "order-preserving removal", "clear": "wait list dropped", "identity": "written back unchanged",
+	"delete-at-i*": "order-preserving removal, or unchanged when the job is not listed",
+}
+
+// helperReturnForm: the form of the slice a list helper returns, relative to its parameter k
+// (all its returns must agree, "identity" aside).
+func (ro *Roles) helperReturnForm(g *ssa.Function, k int, depth int) string {
+	w := ro.w
+	prm := g.Params[k]
+	same := func(x ssa.Value) bool {
+		x = w.Resolve(x)
+		for {
+			switch y := x.(type) {
+			case *ssa.ChangeType:
+				x = w.Resolve(y.X)
+				continue
+			case *ssa.Convert:
+				x = w.Resolve(y.X)
+				continue
+			}
+			break
+		}
+		return x == ssa.Value(prm)
+	}
+	forms := map[string]bool{}
+	allInstrs(g, func(in ssa.Instruction) {
+		rt, ok := in.(*ssa.Return)
+		if !ok || (g.Recover != nil && rt.Block() == g.Recover) {
+			return
+		}
+		for _, rv := range rt.Results {
+			if _, isSlice := rv.Type().Underlying().(*types.Slice); isSlice {
+				v := w.Resolve(rv)
+				for {
+					if ct, ok := v.(*ssa.ChangeType); ok {
+						v = w.Resolve(ct.X)
+						continue
+					}
+					break
+				}
+				forms[ro.formOfRel(v, same, depth+1)] = true
+			}
+		}
+	})
+	if len(forms) == 0 {
+		return "unknown(" + FuncName(g) + " returns no list)"
+	}
+	var fs []string
+	for f := range forms {
+		fs = append(fs, f)
+	}
+	sort.Strings(fs)
+	if len(fs) == 1 {
+		return fs[0]
+	}
+	delete(forms, "identity")
+	if len(forms) == 1 {
+		for f := range forms {
+			return strings.TrimSuffix(f, "*") + "*"
+		}
+	}
+	return "unknown(" + FuncName(g) + " returns " + strings.Join(fs, "|") + ")"
+}
+
+// helperListWrites: the element stores a list helper performs through its parameter k; ok is false
+// when one of them is not "overwrite the last entry".
+func (ro *Roles) helperListWrites(g *ssa.Function, k int) (n int, ok bool) {
+	w := ro.w
+	prm := g.Params[k]
+	ok = true
+	allInstrs(g, func(in ssa.Instruction) {
+		st, isSt := in.(*ssa.Store)
+		if !isSt {
+			return
+		}
+		ia, isIA := w.resolveAddr(st.Addr).(*ssa.IndexAddr)
+		if !isIA {
+			return
+		}
+		base := w.Resolve(ia.X)
+		if ct, isCT := base.(*ssa.ChangeType); isCT {
+			base = w.Resolve(ct.X)
+		}
+		if base != ssa.Value(prm) {
+			return
+		}
+		n++
+		if w.AP(ia.Index) != "(len("+w.AP(ia.X)+") - 1)" {
+			ok = false
+		}
+	})
+	return n, ok
 }
 
 // waitListForms classifies every mutation of the wait list in the module (K11).
@@ -216,8 +352,43 @@ func (ro *Roles) waitListForms(r *Report, rule string) {
 							}
 							if idx >= 0 && idx < len(callee.Params) {
 								sf := &sliceFlow{w: w, memo: map[[2]interface{}][]sliceWrite{}, returnCounts: true}
-								if ws := sf.summary(callee, idx, 1); len(ws) == 0 {
+								ws := sf.summary(callee, idx, 1)
+								if len(ws) == 0 {
 									r.OK(rule, fname+": wait list passed to "+calleeName(c)+" (read-only)", w.InstrPos(in), "the callee neither writes through the slice nor returns it")
+									continue
+								}
+								// a list helper whose own effect is classified: what it returns has an allowed form
+								// (the caller's write-back is judged as a wait-list update) and what it stores is the last entry
+								retOK, nRet, nApp, onlyKnown := true, 0, 0, true
+								for _, wr := range ws {
+									switch wr.what {
+									case "element store":
+									case "returns (a reslice of) it, which the caller may store":
+										nRet++
+									case "append onto a shortened reslice (in-place filter)":
+										nApp++ // accepted below only as part of the order-preserving removal idiom
+									default:
+										onlyKnown = false
+									}
+								}
+								form := ""
+								if nRet > 0 {
+									form = ro.helperReturnForm(callee, idx, 0)
+									_, retOK = allowedForms[form]
+								}
+								nSt, stOK := ro.helperListWrites(callee, idx)
+								if nApp > 0 && !strings.HasPrefix(form, "delete-at-i") {
+									onlyKnown = false
+								}
+								if onlyKnown && retOK && stOK && nSt+nRet+nApp == len(ws) {
+									what := "list helper"
+									if form != "" {
+										what += " returning form " + form
+									}
+									if nSt > 0 {
+										what += " overwriting the last entry"
+									}
+									r.OK(rule, fname+": wait list passed to "+calleeName(c)+" ("+strings.TrimPrefix(what, "list helper ")+")", w.InstrPos(in), what+": order-preserving")
 									continue
 								}
 							}
